@@ -13,16 +13,41 @@ def sh(cmd, cwd=None, timeout=None, env=None):
 
 
 def build_one(args):
-    root, tmp, idx, feats = args
+    """build the probe for one feature configuration, run its fixed battery, and (when an ops file is given) run every
+    protocol line through it; returns (idx, feats, rc, battery digests, error tail, per-line outputs or None)"""
+    root, tmp, idx, feats = args[:4]
+    ops = args[4] if len(args) > 4 else None
     d = os.path.join(tmp, f"c{idx}")
     shutil.copytree(os.path.join(root, "probe20"), d, ignore=shutil.ignore_patterns("target", "Cargo.lock"))
     cmd = ["cargo", "run", "--offline", "-q", "--no-default-features"]
     if feats:
         cmd += ["--features", ",".join(feats)]
     rc, out = sh(cmd, cwd=d, timeout=900)
+    outs = None
+    if rc == 0 and ops:
+        p = subprocess.run(cmd + ["--", "run"], cwd=d, stdin=open(ops), stdout=subprocess.PIPE, stderr=subprocess.DEVNULL, text=True,
+                           timeout=900, env=dict(os.environ, CARGO_NET_OFFLINE="true"))
+        outs = p.stdout.split("\n")[:-1] if p.returncode == 0 else []
     shutil.rmtree(d, ignore_errors=True)
     lines = dict(l.split() for l in out.strip().split("\n") if re.fullmatch(r"\w+ [0-9a-f]{16}", l.strip())) if rc == 0 else {}
-    return idx, feats, rc, lines, out[-1500:] if rc != 0 else ""
+    return idx, feats, rc, lines, (out[-1500:] if rc != 0 else ""), outs
+
+
+def gen_ops(root, work, seed, count):
+    """protocol lines for every operation (core and all six traits), from the correspondence generator"""
+    path = os.path.join(work, "c20_ops.txt")
+    rc, out = sh(["cargo", "build", "--offline", "-q"], cwd=os.path.join(root, "harness"), timeout=1800)
+    if rc != 0:
+        return None, out[-800:]
+    exe = os.path.join(root, "harness/target/debug/gharness")
+    with open(path, "w") as f:
+        p = subprocess.run([exe, "gen", "--seed", str(seed), "--count", str(count), "--malformed", "3", "--hist", "20"], stdout=f, stderr=subprocess.PIPE, text=True)
+    return (path, "") if p.returncode == 0 else (None, p.stderr[-800:])
+
+
+def needs(line):
+    f = line.split(".", 1)[0]
+    return f if f in FEATS else None
 
 
 def write_replay(root, kind, payload):
@@ -39,8 +64,11 @@ def replay(root, path):
     feats = r.get("features", [])
     tmp = tempfile.mkdtemp(prefix="c20r_")
     try:
-        idx, f, rc, lines, err = build_one((root, tmp, 0, feats))
-        _, _, rca, lall, _ = build_one((root, tmp, 1, ["all"]))
+        opsf = None
+        if r.get("line"):
+            opsf = os.path.join(tmp, "line.txt"); open(opsf, "w").write(r["line"] + "\n")
+        idx, f, rc, lines, err, o1 = build_one((root, tmp, 0, feats, opsf))
+        _, _, rca, lall, _, o2 = build_one((root, tmp, 1, r.get("reference", ["all"]), opsf))
     finally:
         shutil.rmtree(tmp, ignore_errors=True)
     print(f"configuration --no-default-features --features {','.join(feats) or '(none)'}: build rc={rc}")
@@ -48,6 +76,9 @@ def replay(root, path):
         print(err[-800:])
         print("REPLAY reproduces"); return 1
     bad = [k for k in feats if k in FEATS and k not in lines] + [k for k, v in lines.items() if lall.get(k) not in (None, v)]
+    if r.get("line"):
+        print("line:", r["line"]); print(" this configuration ->", o1, "\n reference ->", o2)
+        if o1 != o2: bad.append("line")
     print("digests:", lines, "| all:", lall)
     print("REPLAY", "reproduces" if bad else "does not reproduce")
     return 1 if bad else 0
@@ -106,17 +137,42 @@ def run(root, pid, tier, seed):
     # ---- 3. the tie: all 65 real builds
     configs = [[FEATS[i] for i in range(6) if S >> i & 1] for S in range(64)] + [["all"]]
     tmp = tempfile.mkdtemp(prefix="c20_")
+    nlines = 400000 if tier == "thorough" else 40000
+    opsf, operr = gen_ops(root, work, seed, nlines)
+    if opsf is None:
+        notes.append("could not generate protocol lines: " + operr)
     t = time.time()
     try:
         with ThreadPoolExecutor(max_workers=16) as ex:
-            results = list(ex.map(build_one, [(root, tmp, i, c) for i, c in enumerate(configs)]))
+            results = list(ex.map(build_one, [(root, tmp, i, c, opsf) for i, c in enumerate(configs)]))
     finally:
         shutil.rmtree(tmp, ignore_errors=True)
     builds_s = round(time.time() - t, 1)
     allres = results[64][3]
     build_fail, missing, core_diff, helper_diff = [], [], [], []
     core0 = results[0][3].get("core")
-    for idx, feats, rc, lines, err in results:
+    # the same protocol lines under every configuration: identical to the `all` build, or bad-op exactly when the op's trait is off
+    line_diff, lines_compared, per_feat = None, 0, {}
+    if opsf is not None:
+        src_lines = open(opsf).read().split("\n")[:-1]
+        ref = results[64][5] or []
+        if results[64][2] == 0 and len(ref) == len(src_lines):
+            for idx, feats, rc, _, _, outs in results[:64]:
+                if rc != 0 or outs is None:
+                    continue
+                if len(outs) != len(src_lines):
+                    line_diff = line_diff or (feats, src_lines[0], "<stream of %d lines>" % len(outs), "<stream of %d lines>" % len(ref), "the probe died part-way through the stream"); continue
+                for l, o, r0 in zip(src_lines, outs, ref):
+                    nf = needs(l)
+                    want = r0 if (nf is None or nf in feats) else "bad-op"
+                    lines_compared += 1
+                    if nf is None or nf in feats:
+                        per_feat[nf or "core"] = per_feat.get(nf or "core", 0) + 1
+                    if o != want and line_diff is None:
+                        line_diff = (feats, l, o, want, "result differs between feature configurations")
+        else:
+            notes.append("reference configuration `all` produced no usable stream")
+    for idx, feats, rc, lines, err, _outs in results:
         if rc != 0:
             build_fail.append((feats, err)); continue
         if lines.get("core") != core0:
@@ -137,6 +193,10 @@ def run(root, pid, tier, seed):
         violations.append((rp, ""))
     elif missing:
         rp = write_replay(root, "helpers", {"features": missing[0][0], "what": f"helpers of enabled feature {missing[0][1]} not usable"})
+        violations.append((rp, ""))
+    elif line_diff:
+        feats, l, o, want, why = line_diff
+        rp = write_replay(root, "line", {"features": feats, "reference": ["all"], "what": why, "line": l, "this_configuration": o, "expected": want})
         violations.append((rp, ""))
     elif core_diff or helper_diff:
         d = (core_diff or helper_diff)[0]
@@ -166,14 +226,16 @@ def run(root, pid, tier, seed):
                 "the feature-model translator tools/featmodel.py (regular-expression reader of Cargo.toml, lib.rs, traits/*.rs; fails closed on cfg "
                 "expressions beyond feature/any/all/not)",
                 "rustc name resolution abstracted as the closure relation of Props/C20.lean; the 65 real builds of probe20 are the ground truth",
-                "the probe's fixed battery of core and helper computations"],
+                "the probe's fixed battery of core and helper computations, and the generated protocol lines replayed under every configuration"],
             "explanation": "obligations = theorems of Props/C20.lean decided by the kernel over the regenerated tables for all 64 subsets, + 1 for the "
-                           "agreement of all 65 real builds (build success, helper availability, bit-identical digests)",
+                           "agreement of all 65 real builds (build success, helper availability, bit-identical digests, and the same generated protocol lines "
+                           "giving bit-identical results under every configuration that compiles the operation)",
             "theorems": names, "axioms_used": axioms_used, "proof_stage": pinfo,
             "exhaustive": True,
             "evaluations": len(configs), "distinct_nontrivial": ok_builds,
             "rule": "all 64 subsets of the six flags plus the alias `all`, each built with default features off and run; non-trivial = built and ran",
             "programs": len(configs), "builds_ok": ok_builds, "builds_wall_s": builds_s,
+            "protocol_lines": {"file_lines": (len(src_lines) if opsf else 0), "comparisons": lines_compared, "per_trait_comparisons": per_feat, "notes": notes},
             "model": {k: model[k] for k in ("features", "default", "all", "core_cfg")} if model else None,
             "samples": [{"features": r[1], "digests": r[3]} for r in (results[0], results[21], results[64])],
         },
@@ -187,5 +249,5 @@ def run(root, pid, tier, seed):
         rp, suffix = violations[0]
         print(f"VIOLATION property=C20 replay={rp}" + (" " + suffix if suffix else ""))
         return 1
-    print(f"OK property=C20 tier={tier} theorems={nthm} builds={ok_builds}/65 wall={wall}s")
+    print(f"OK property=C20 tier={tier} theorems={nthm} builds={ok_builds}/65 line_comparisons={lines_compared} wall={wall}s")
     return 0
